@@ -641,7 +641,7 @@ def explain(line, trace):
                                 E = par["rs"]
                             elif par["persist"] == "file" and prev.get("ctrl"):
                                 E = prev["ctrl"][1]
-                    elif st in (0, 2, 3, 4, 5):
+                    elif st in (0, 2, 3, 4, 5) or ids is None:
                         judged = False
                     pd = (_get(toks, 43) or b"")[:1] == b"Y"
                     o122, o52 = _get(toks, 122), _get(toks, 52)
